@@ -21,6 +21,8 @@ OPS = [
     "solve_plain", "solve_screen", "solve_bias", "solve_tdep", "solve_adaptive", "solve_fail", "solve_abort", "solve_seeded",
     "copy_move", "remesh_copy", "shared_mesh_units", "postprocess", "save_load", "pickle", "edit_restore", "param_eval",
     "operators", "queries", "threads", "build_unrun",
+    # the same geometry meshed earlier in the process with other targets (a mesh convergence study): meshing again must not depend on it
+    "mesh_coarser_05", "mesh_coarser_12", "mesh_coarser_25", "mesh_finer", "mesh_minpoints",
 ]
 MID = ["solve_plain", "solve_screen", "solve_tdep", "build_unrun", "edit_restore", "copy_move", "postprocess", "save_load"]
 CORE = ["solve_screen", "solve_tdep", "copy_move", "postprocess", "edit_restore", "save_load"]
@@ -177,6 +179,25 @@ class Session:
         d2 = self.dev.copy(with_mesh=False)
         d2.make_mesh(max_edge_length=0.8, smooth=2)
         self.tdgl.solve(d2, self.opts(), applied_vector_potential=0.3, terminal_currents={"source": 0.1, "drain": -0.1})
+
+    def _mesh_other(self, **kw):
+        d = self.zoo.device("G2", memo=False, lam=0.8, mesh=False)
+        d.make_mesh(**kw)
+
+    def mesh_coarser_05(self):
+        self._mesh_other(max_edge_length=1.05, smooth=0)
+
+    def mesh_coarser_12(self):
+        self._mesh_other(max_edge_length=1.125, smooth=0)
+
+    def mesh_coarser_25(self):
+        self._mesh_other(max_edge_length=1.25, smooth=0)
+
+    def mesh_finer(self):
+        self._mesh_other(max_edge_length=0.8, smooth=0)
+
+    def mesh_minpoints(self):
+        self._mesh_other(max_edge_length=1.3, min_points=150, smooth=0)
 
     def shared_mesh_units(self):
         d2 = self.zoo.with_mesh_of(self.dev, "G2", "nm", lam=0.8)
@@ -342,6 +363,19 @@ class Session:
         h.update(repr(sorted((k, repr(v)) for k, v in vars(self.O1).items() if k != "output_file")).encode())
         h.update(repr(sorted((k, repr(v)) for k, v in vars(self.O2).items() if k != "output_file")).encode())
         out["inputs"] = h.hexdigest()
+        # the reference device built again from its definition, after the history: meshing the same geometry with the same settings
+        # gives the same mesh whatever was meshed before in this process
+        h = _h()
+        for kw in (dict(), dict(density="fine"), dict(smooth=2)):
+            d3 = self.zoo.device("G2", memo=False, lam=0.8, **kw)
+            for nm in ("sites", "elements", "boundary_indices", "areas"):
+                _upd(h, nm, getattr(d3.mesh, nm))
+            _upd(h, "edges", d3.mesh.edge_mesh.edges)
+        d4 = self.dev.copy(with_mesh=False)
+        d4.make_mesh(max_edge_length=0.8, smooth=2)
+        _upd(h, "copy.sites", d4.mesh.sites)
+        _upd(h, "copy.elements", d4.mesh.elements)
+        out["R3.mesh"] = h.hexdigest()
         return out
 
 
